@@ -317,8 +317,8 @@ class LinearScale(object):
     def __init__(
         self, domain=None, _range=None, interpolate=None, clamp=False
     ):
-        self._domain = [0, 1] if domain is None else domain
-        self._range = [0, 1] if _range is None else _range
+        self._domain = [0, 1] if domain is None else list(domain)
+        self._range = [0, 1] if _range is None else list(_range)
         self._interpolate = (
             d3_interpolate if interpolate is None else interpolate
         )
@@ -357,7 +357,7 @@ class LinearScale(object):
     def range(self, x=None):
         if x is None:
             return self._range
-        self._range = x
+        self._range = list(x)
         return self.rescale()
 
     def rangeRound(self, x):
